@@ -602,8 +602,15 @@ Fixpoint start_loop (fuel : nat) (l : list entry) (cs : list (list Z)) : list Z 
   end.
 
 Definition okoff (o : Z) : bool := (0 <=? o) && (o <=? 400).
+(* a coroutine's time points must not go backwards: a later sleep with an earlier (already past) time point wakes
+   "out of order" legitimately, and the order check below is global *)
+Fixpoint nondecr (l : list Z) : bool :=
+  match l with
+  | a :: ((b :: _) as t) => (a <=? b) && nondecr t
+  | _ => true
+  end.
 Definition decode_start (ops : list (list Z)) : option (list (list Z)) :=
-  if forallb (fun o => match o with 1 :: offs => forallb okoff offs && negb (is_empty offs) | _ => false end) ops
+  if forallb (fun o => match o with 1 :: offs => forallb okoff offs && negb (is_empty offs) && nondecr offs | _ => false end) ops
      && (1 <=? length ops)%nat && (length ops <=? 4)%nat
   then Some (map (fun o => tl o) ops) else None.
 
